@@ -49,7 +49,10 @@ def gen_index(i: int, seed: int, tier: str) -> dict[str, Any]:
         kind = rng.choice(["real", "xknx_asdu", "ref"])
         algo = "enc" if kind == "real" else rng.choice(["enc", "auth"])
         frames.append({"kind": kind, "algo": algo, "len": ln, "short": ln == 2 and rng.random() < 0.5,
-                       "ext_format": 0, "hops": rng.randrange(8), "prio": rng.randrange(4)})
+                       "ext_format": 0, "hops": rng.randrange(8), "prio": rng.randrange(4),
+                       # the one sending instance sends under several source addresses (explicit source_address, or its
+                       # own address changing as after a tunnel reconnect)
+                       "src_i": rng.randrange(3), "src_via": rng.choice(["explicit", "current"])})
     faulty = rng.random() < 0.4
     return {"seed": seed, "tier": "S", "config": {"batch": 1},
             "frames": frames, "fault_policy": {"dup": 0.2, "delay": 0.2, "delays": [0.003, 0.05], "dup_delays": [0.001, 0.1]} if faulty else None,
@@ -67,7 +70,7 @@ def run(plan: dict[str, Any]) -> dict[str, Any]:
     from xknx.cemi.flags import CEMIAddressType, CEMIFrameFormat
     from xknx.dpt import DPTArray, DPTBinary
     from xknx.secure.data_secure_asdu import SecureData, SecurityControlField
-    from xknx.telegram import GroupAddress, Telegram
+    from xknx.telegram import GroupAddress, IndividualAddress, Telegram
     from xknx.telegram.apci import GroupValueWrite
     from xknx.telegram.tpci import TDataGroup
 
@@ -77,9 +80,10 @@ def run(plan: dict[str, Any]) -> dict[str, Any]:
     ga = rng.randrange(1, 0xFFFF)
     ga2 = (ga % 0xFFFE) + 1
     keys = {ga: rng.randbytes(16), ga2: rng.randbytes(16)}
-    ia_real, ia_x, ia_ref = rng.sample(range(0x1001, 0xFFFE), 3)
+    ia_real, ia_x, ia_ref, ia_real1, ia_real2 = rng.sample(range(0x1001, 0xFFFE), 5)
+    real_srcs = [ia_real, ia_real1, ia_real2]
     rx_ia = 0x5001
-    rx = D.Node(R, "rx", rx_ia, keys, {ia_real: 0, ia_x: 0, ia_ref: 0})
+    rx = D.Node(R, "rx", rx_ia, keys, {ia_real: 0, ia_x: 0, ia_ref: 0, ia_real1: 0, ia_real2: 0})
     start_real = rng.randrange(1, MAXSEQ - 100)
     tx = D.Node(R, "tx", ia_real, keys, {}, last_seq_sending=start_real)
     seqs = {"xknx_asdu": rng.randrange(1, MAXSEQ - 100), "ref": rng.randrange(1, MAXSEQ - 100)}
@@ -117,8 +121,16 @@ def run(plan: dict[str, Any]) -> dict[str, Any]:
                 payload = GroupValueWrite(DPTArray(tuple(data)))
             rec = {"kind": f["kind"], "algo": f["algo"], "len": ln, "apdu": apdu, "dst": dst}
             if f["kind"] == "real":
-                rec["src"] = ia_real
-                tx.xknx.telegrams.put_nowait(Telegram(destination_address=GroupAddress(dst), payload=payload))
+                src = real_srcs[f.get("src_i", 0)]
+                rec["src"] = src
+                if f.get("src_via") == "explicit":
+                    tx.xknx.telegrams.put_nowait(Telegram(destination_address=GroupAddress(dst), payload=payload,
+                                                          source_address=IndividualAddress(src)))
+                else:
+                    await tx.xknx.telegrams.join()
+                    tx.xknx.current_address = IndividualAddress(src)
+                    tx.xknx.telegrams.put_nowait(Telegram(destination_address=GroupAddress(dst), payload=payload))
+                    await tx.xknx.telegrams.join()
             else:
                 src = ia_x if f["kind"] == "xknx_asdu" else ia_ref
                 rec["src"] = src
